@@ -67,3 +67,12 @@ BUILT['C08'] = (
     "(any return - None, identity, foreign elements - is a violation), documented pairs must return the documented class with "
     "the broadcast length; the space is finite and enumerated completely on every run",
     NOTE, "DESIGN.md 4 C08 + Appendix A")
+BUILT['C09'] = (
+    "self-consistency monitor: the vectorised operator / accessor on m- and n-valued operands is compared element by element "
+    "with the same operation on single-valued objects; exhaustive over classes x operators x all length pairs 1..5 x 1..5",
+    "for the eight list-capable classes every operator (* / + - == != ** and pose*point) is run on every length pair with "
+    "pairwise distinct elements: length rule, element i equal (bit for bit) to the single-valued result on the corresponding "
+    "elements, ValueError exactly for mismatched lengths; every per-value accessor named in the statement is run on objects "
+    "holding 1..5 values with options (unit, order); all four length branches and the error branch of binop and _op2 are "
+    "required line-reach targets",
+    NOTE, "DESIGN.md 4 C09")
